@@ -5,6 +5,7 @@
 import Msmart.Driver.AC
 import Msmart.Driver.Dev
 import Msmart.Driver.Lan
+import Msmart.Driver.Cloud
 
 open Msmart Msmart.Driver
 
@@ -23,6 +24,9 @@ def handle (line : String) : String :=
     | some r => r
     | none =>
     match lanOp op t with
+    | some r => r
+    | none =>
+    match cloudOp op t with
     | some r => r
     | none => "bad-op"
 
